@@ -543,7 +543,13 @@ class EngineSystem:
                 break
             self.apply(["release", g[0][0], g[0][1], g[0][2], g[0][3]])
             n += 1
-        self.log({"e": "drained", "live_run": self.outcome is None, "open": len(self.rig.open_gates())})
+        # what is left in the collect buffers of the live run: list of [step, buffer id, [event types]]
+        left = []
+        for r_ in _RUNNERS.values():
+            for sname, w in sorted(r_.state.workers.items()):
+                for b, evs in sorted(w.collected_events.items()):
+                    left.append([sname, b, [E.ty_of(e) for e in evs]])
+        self.log({"e": "drained", "live_run": self.outcome is None, "open": len(self.rig.open_gates()), "left": left})
 
     def state_key(self):
         last = None
